@@ -4,6 +4,7 @@ from __future__ import annotations
 import argparse
 import ast
 import sys
+import tokenize
 import warnings
 from pathlib import Path
 from typing import Iterable, Sequence, Tuple
@@ -136,7 +137,14 @@ def main(argv: Sequence[str] = None) -> int:
         {filename for path in args.path for filename in _recursively_find_files(path)}
     )
     for filename in filenames:
-        source = filename.read_text()
+        try:
+            # The way python itself reads a module: byte order mark, coding cookie, utf-8 otherwise
+            with tokenize.open(filename) as stream:
+                source = stream.read()
+                encoding = stream.encoding
+        except (OSError, SyntaxError, UnicodeDecodeError) as error:
+            print(f"{filename}: cannot be read: {error}", file=sys.stderr)
+            continue
 
         if args.command == "find":
             for match in finditer(args.pattern, source):
@@ -148,7 +156,7 @@ def main(argv: Sequence[str] = None) -> int:
             print(f"Parsing {filename}...")
             new_source = sub(args.pattern, args.replacement, source)
             if new_source != source:
-                filename.write_text(new_source)
+                filename.write_text(new_source, encoding=encoding)
 
         else:
             print(f"Unknown command: {args.command}")
